@@ -162,3 +162,7 @@ def make_color() -> Color:
 
 def make_dict_str_none() -> dict[str, None]:
     return {"k": None}
+
+
+def make_pair_union(flag: bool) -> tuple[int | str, B]:
+    return (1 if flag else "s", B(1))
